@@ -2,15 +2,20 @@
 # Final validation with the change REALLY applied to /repo (git apply), as the acceptance harness does:
 # for every seeded change: apply, run the property's quick check, undo. Run only when nothing else uses /repo.
 cd /verif
-OUT=seeded/final_validation.log; : > $OUT
+OUT=seeded/final_validation.log
+ONLY="$*"
+if [ -z "$ONLY" ]; then : > $OUT; else for n in $ONLY; do sed -i "/^$n: /d" $OUT; done; sed -i "/^repo clean/d" $OUT; fi
 [ -z "$(git -C /repo status --porcelain)" ] || { echo "/repo is not clean"; exit 2; }
 trap 'git -C /repo checkout -- . ; echo "interrupted: /repo restored" >> /verif/seeded/final_validation.log' INT TERM HUP
 for d in /verif/seeded/C*/; do
   n=$(basename $d); id=$(echo $n | cut -c1-3)
   [ -f $d/patch.diff ] || continue
+  if [ -n "$ONLY" ]; then case " $ONLY " in *" $n "*) ;; *) continue;; esac; fi
   if git -C /repo apply --check $d/patch.diff 2>/dev/null; then
     git -C /repo apply $d/patch.diff
-    r=$(timeout 1500 ./check $id 2>/dev/null | grep -E "^VIOLATION" | head -2 | sed 's/replay=.*replays\///' | tr '\n' ' ')
+    o=$(timeout 1500 ./check $id 2>/dev/null | grep -E "^VIOLATION")
+    # concrete (unsuffixed) reports first, at most two lines shown
+    r=$( (echo "$o" | grep -v "no-failing-input-found$"; echo "$o" | grep "no-failing-input-found$") | grep . | head -2 | sed 's/replay=.*replays\///' | tr '\n' ' ')
     git -C /repo checkout -- .
     echo "$n: ${r:-NOT DETECTED}" | tee -a $OUT
   else
@@ -18,5 +23,6 @@ for d in /verif/seeded/C*/; do
   fi
 done
 # restore coq/Gen and evidence for the unchanged tree
-for p in $(cat harness/ready.txt); do ./check $p > /dev/null 2>&1; done
+if [ -z "$ONLY" ]; then for p in $(cat harness/ready.txt); do ./check $p > /dev/null 2>&1; done
+else for n in $ONLY; do ./check $(echo $n | cut -c1-3) > /dev/null 2>&1; done; sort -o $OUT $OUT; fi
 [ -z "$(git -C /repo status --porcelain)" ] && echo "repo clean" | tee -a $OUT
